@@ -57,7 +57,7 @@ def run(ctx):
     ctx.rule = ('(a) PIT: grammar architectures (1-D causal and 2-D; conv/depthwise/residual/concat/pool/flatten/linear heads) x all applicable built-in specs as a dictionary '
                 '+ one single specification; trainable mask parameters seeded with dyadic values (styles rand / with exact zeros / small / big); per network: value, autograd '
                 'gradient of every trainable element, +1 magnitude bump of every element, weight perturbation, other input batch + eval mode, one raised and one lowered '
-                'parameter vector, all masks +-1, trainability switches (train_net_only / train_nas_only / train_net_and_nas / train_features|rf|dilation := False) applied at random with cost and gradients of the still-trainable parameters unchanged (one persists through the float64 comparison with the model); under every switch, and on a wrapper CONSTRUCTED with train_features / train_rf / train_dilation = False, the two weight sentences are evaluated on exactly net_parameters() after train_net_only() / train_net_and_nas() (no gradient, perturbation changes no cost), every metric identical on wrappers traced with input_example of 1 and of 2..8 samples, the cost specification re-assigned (same dict, dict -> single -> dict, single wrappers) while the masks are away from 1 and compared with a fresh wrapper carrying identical masks and, re-opened, with the original model, the metrics re-read in two other orders; (a2) the same with full_cost=True and 1-2 cost-bearing layers excluded by name (costed with their static sizes), one single-specification wrapper per metric; (b) fixed SuperNet (S0, S1, S2 = Linear layers on (N, T, F) inputs) / MPS (M0, M1; per-layer and per-channel) / ODiMO_MPS (defaults) models with seeded coefficients, each also traced with input_example of 1 and of 2..8 samples; the cost right after construction (value; whether it back-propagates is recorded), value and gradients again after forward -> export() / summary() / get_cost / export()+summary() / update_softmax_options(same options) / update_softmax_options(annealed temperature) without a forward in between; MPS (hard_softmax=True and eval()) / ODiMO (eval()) with one-hot sampled coefficients, seeded and extreme (a precision chosen by no channel): finite cost and gradients for every spec; per-channel MPS with the 0-bit precision (0, 2, 4, 8) incl. a residual model whose branch convolution is pruned channel by channel up to completely, under soft / hard / eval sampling: finite non-negative cost, finite gradients, value == sum theta_in * mean(theta_w) * cost_fn; SuperNet with gumbel_softmax=True + hard_softmax=True in training mode, 10 draws: cost == sum theta_i cost_i, d cost / d theta_i == cost_i, d cost / d alpha == straight-through reference. '
+                'parameter vector, all masks +-1, discrete_cost=True both set later on the wrapper and given to the constructor of a second wrapper (cost on the binarized masks, PITBinarizer straight-through): finite, non-negative, the two agree, gradients finite / none to weights / of the sign of the element and non-zero for every trainable non keep-alive element whose +1 magnitude bump raises the step-wise metric, and the continuous cost is back after discrete_cost=False; trainability switches (train_net_only / train_nas_only / train_net_and_nas / train_features|rf|dilation := False) applied at random with cost and gradients of the still-trainable parameters unchanged (one persists through the float64 comparison with the model); under every switch, and on a wrapper CONSTRUCTED with train_features / train_rf / train_dilation = False, the two weight sentences are evaluated on exactly net_parameters() after train_net_only() / train_net_and_nas() (no gradient, perturbation changes no cost), every metric identical on wrappers traced with input_example of 1 and of 2..8 samples, the cost specification re-assigned (same dict, dict -> single -> dict, single wrappers) while the masks are away from 1 and compared with a fresh wrapper carrying identical masks and, re-opened, with the original model, the metrics re-read in two other orders; (a2) the same with full_cost=True and 1-2 cost-bearing layers excluded by name (costed with their static sizes), one single-specification wrapper per metric; (b) fixed SuperNet (S0, S1, S2 = Linear layers on (N, T, F) inputs) / MPS (M0, M1; per-layer and per-channel) / ODiMO_MPS (defaults) models with seeded coefficients, each also traced with input_example of 1 and of 2..8 samples; the cost right after construction (value; whether it back-propagates is recorded), value and gradients again after forward -> export() / summary() / get_cost / export()+summary() / update_softmax_options(same options) / update_softmax_options(annealed temperature) without a forward in between; MPS (hard_softmax=True and eval()) / ODiMO (eval()) with one-hot sampled coefficients, seeded and extreme (a precision chosen by no channel): finite cost and gradients for every spec; per-channel MPS with the 0-bit precision (0, 2, 4, 8) incl. a residual model whose branch convolution is pruned channel by channel up to completely, under soft / hard / eval sampling: finite non-negative cost, finite gradients, value == sum theta_in * mean(theta_w) * cost_fn; SuperNet with gumbel_softmax=True + hard_softmax=True in training mode, 10 draws: cost == sum theta_i cost_i, d cost / d theta_i == cost_i, d cost / d alpha == straight-through reference. '
                 'non-trivial = at least one searchable layer and one trainable non keep-alive parameter element; distinct = distinct (architecture, parameter values) / (model, seed)')
     from concurrent.futures import ProcessPoolExecutor
     import multiprocessing as mp
